@@ -81,13 +81,27 @@ def _load(cid):
     return _CHECK
 
 
+def _run_case(chk, case):
+    """one case, plus the oracle every check shares: a call must not modify the lists / arrays passed to it as arguments"""
+    from . import lib
+    res = Res()
+    lib.drain_arg_mutations()
+    chk.run_case(case, res)
+    seen = set()
+    for name, pos, before, after in lib.drain_arg_mutations():
+        if name not in seen:
+            seen.add(name)
+            res.violation("argument_modified", f"{name}: the container passed as argument {pos} was modified by the call: "
+                          f"{before} -> {after}", call=name)
+    return res
+
+
 def _work(arg):
     cid, idx, case = arg
     chk = _load(cid)
     t = time.time()
     try:
-        res = Res()
-        chk.run_case(case, res)
+        res = _run_case(chk, case)
         out = res.pack()
     except BaseException as e:  # noqa: BLE001  harness failure, not a property violation
         import traceback
@@ -140,8 +154,7 @@ def replay(pid, path):
     with open(path) as f:
         body = json.load(f)
     case = num.dec(body["case"])
-    res = Res()
-    chk.run_case(case, res)
+    res = _run_case(chk, case)
     findings = load_findings()
     print(f"replay {path}: case = {num.show(case)}")
     bad = 0
